@@ -606,6 +606,40 @@ impl Model {
             }
         }
 
+        // "beyond the capacity are dropped": a datagram that certainly found the queue of x full — at least
+        // capacity + 1 other datagrams (the + 1 is the one-datagram slot behind readable()) that certainly
+        // arrived before it and were consumed only after its latest arrival step — must not be received
+        for ((id, xi), _rs) in &recv_step_of {
+            let d = &self.sends[by_id[id]];
+            let x = &self.socks[*xi];
+            let (dmin, dmax) = self.arrival_steps(d, self.is_same_host(d, x));
+            let fixed = self.cfg.min_ticks == self.cfg.max_ticks;
+            let mut floor = 0usize;
+            for ((oid, oxi), ors) in &recv_step_of {
+                if oxi != xi || oid == id {
+                    continue;
+                }
+                let o = &self.sends[by_id[oid]];
+                let (_, omax) = self.arrival_steps(o, self.is_same_host(o, x));
+                let before = omax < dmin || (fixed && o.sock == d.sock && o.seq < d.seq && self.is_same_host(o, x) == self.is_same_host(d, x) && o.dst == d.dst);
+                if before && *ors > dmax {
+                    floor += 1;
+                }
+            }
+            if floor > self.cfg.capacity {
+                return (
+                    Some(Bad {
+                        class: "ReceivedBeyondCapacity",
+                        message: format!(
+                            "{} received datagram {} (sent in step {} by {}), although when it arrived (steps {}..{}) at least {} earlier datagrams were certainly still unread in its queue: the capacity is {} (+1 for the slot behind readable())",
+                            x.name, id, d.step, self.socks[d.sock].name, dmin, dmax, floor, self.cfg.capacity
+                        ),
+                    }),
+                    stats,
+                );
+            }
+        }
+
         // ambiguous receives: at most one receive per (datagram, socket) => a matching must exist
         for (xi, list) in &amb {
             let mut match_of_send: BTreeMap<usize, usize> = BTreeMap::new();
@@ -636,6 +670,22 @@ impl Model {
                                 class: if list[k].2.iter().any(|di| self.heir_of_member(&self.sends[*di], *xi)) { "MisroutedToPortHeir" } else { "Misrouted" },
                                 message: format!(
                                     "{} received a short datagram at seq {} ({:?}) that matches no unreceived send addressed to it; it matches e.g. datagram {} sent by {} to {} ({:?}), which never had this socket as a destination",
+                                    self.socks[*xi].name, r.seq, r.outcome, d.id, self.socks[d.sock].name, d.dst, d.class
+                                ),
+                            }),
+                            stats,
+                        );
+                    }
+                    // one receive too many among datagrams too short to tell apart: if any of this socket's short
+                    // receives also matches a multicast datagram that was in flight to the previous holder of its
+                    // port, that is the better explanation than a duplicate
+                    if let Some(di) = list.iter().flat_map(|e| e.2.iter().copied()).find(|di| self.heir_of_member(&self.sends[*di], *xi)) {
+                        let d = &self.sends[di];
+                        return (
+                            Some(Bad {
+                                class: "MisroutedToPortHeir",
+                                message: format!(
+                                    "{} received one short datagram more than was sent to it (receive at seq {} ({:?}) cannot be matched to a distinct send); one of its short receives matches datagram {} sent by {} to {} ({:?}), which never had this socket as a destination",
                                     self.socks[*xi].name, r.seq, r.outcome, d.id, self.socks[d.sock].name, d.dst, d.class
                                 ),
                             }),
